@@ -23,6 +23,8 @@ def parseWsOp (t : Tree) : Option Op :=
   | .node "CON" [.atom d, .atom n] => some (.connect (d == "ok") (n == "ok"))
   | .atom "DIS" => some .disconnect
   | .node "REC" [.atom d, .atom n] => some (.reconnect (d == "ok") (n == "ok"))
+  -- third atom `abn`: the replaced session's peer drops the connection on the close frame; the same step for the model
+  | .node "REC" [.atom d, .atom n, .atom _] => some (.reconnect (d == "ok") (n == "ok"))
   | .node "RAW" [b, .atom w] => (treeHex b).map fun b => .sendRaw b (w != "-")
   | .node "SND" [m, .atom w] => (encodeWithChunk m false []).map fun e => .send e (w != "-")
   | .node "LEND" [.atom k] =>
@@ -159,6 +161,14 @@ def opWC (args obs : List String) : Option DecOut :=
     -- logclose: one Close from start to end while Listen is at its "listening" log line; judged on the statement alone
     -- (Closed() true and never reverting, one underlying close, at most one frame, no leak; Listen's result is either
     -- nil or the error of reading from the closed connection)
+    -- listen3 / handlerpanic: a read loop is still reading when another Listen arrives; judged on C16's statement alone
+    if scen == "listen3" || scen == "handlerpanic" then
+      let f :=
+        (if extra == "already" then [] else [s!"C16 a Listen call was not refused ({extra}) although a read loop was reading the connection ({scen})"]) ++
+        (if maxr ≤ 1 then [] else [s!"C16 {maxr} goroutines inside the underlying ReadMessage at once"]) ++
+        (if maxw ≤ 1 then [] else [s!"C16 {maxw} goroutines inside the underlying WriteMessage at once"])
+      some { corr := if f.isEmpty then none else some s!"model=(extra=already maxr=1) go=({all})", fails := f, branch := s!"wc.{scen}" }
+    else
     if scen == "logclose" then
       let f :=
         (if res == ["nil"] then [] else [s!"C15 a single Close call that ran while Listen was starting returned {res}"]) ++
